@@ -21,7 +21,9 @@ RULE = ("rolling_window and expanding_window on point clouds given as 1-D and 2-
         "int64 / int32 arrays; easting, northing and the extra coordinate also with DIFFERENT dtypes (int32/int64/float32/float64 in all "
         "orders) and values needing the wider type (fractions next to integers, 7.5e6 + fractions next to float32), regions also smaller "
         "than the data extent with both adjust modes; integer coordinates with fractional centres, sizes and steps (C14); the model always receives the logical C-order ravel. Every call is made twice on the same argument objects "
-        "(identical result, arguments unchanged). Non-trivial = the call returns windows for a non-empty cloud; distinct = distinct argument tuples.")
+        "(identical result, arguments unchanged); a sequence stream calls either window function, modifies the same array objects in place "
+        "(shift, scale, centre, overwrite) and calls again (must match the model on the new values and a call on fresh copies); shape= "
+        "with n_north != n_east on clearly non-square regions (also after shrinking) and windows equal to a side. Non-trivial = the call returns windows for a non-empty cloud; distinct = distinct argument tuples.")
 ASSUMPTIONS = [
     "scipy cKDTree.query_ball_point(x, r, p=inf) returns the points with max(|de|, |dn|) <= r (closed ball, eps = 0); modelled by a linear scan",
     "floats are read as the exact rationals they denote; on-edge membership is compared exactly (the float subtraction is exact when the distance equals the radius); points within 2^-30 x scale of a window edge but not on it are excluded from membership comparison",
@@ -72,9 +74,13 @@ def same_tuples(a, b):
     return len(a) == len(b) and all(len(x) == len(y) and all(np.array_equal(p, q) for p, q in zip(x, y)) for x, y in zip(a, b))
 
 
-def rolling_case(vd, spec, size, spacing, shape, region, adj, kind):
-    """spec: [(values, layout, dtype), ...] (harness/layouts.py); the model gets the logical C-order ravel"""
+def rolling_case(vd, spec, size, spacing, shape, region, adj, kind, pre=None):
+    """spec: [(values, layout, dtype), ...] (harness/layouts.py); the model gets the logical C-order ravel.
+    pre = (first, ops): an earlier call on the same array objects followed by in-place modifications"""
     coords = layouts.build(spec)
+    if pre:
+        layouts.first_call(vd, coords, pre[0])
+        layouts.apply_ops(coords, pre[1])
     snap = layouts.snapshot(coords)
     east, north = coords[0], coords[1]
     kw = {"size": size}
@@ -99,6 +105,10 @@ def rolling_case(vd, spec, size, spacing, shape, region, adj, kind):
             wc2, idx2 = vd.rolling_window(coords, **kw)
             stable = (layouts.unchanged(coords, snap) and all(np.array_equal(a, b) for a, b in zip(wc, wc2))
                       and idx2.shape == idx.shape and same_tuples(list(idx.ravel()), list(idx2.ravel())))
+            if pre:   # and the same as a call on fresh copies of the modified arrays
+                wc3, idx3 = vd.rolling_window(layouts.fresh(coords), **kw)
+                stable = (stable and all(np.array_equal(a, b) for a, b in zip(wc, wc3))
+                          and idx3.shape == idx.shape and same_tuples(list(idx.ravel()), list(idx3.ravel())))
             obs = {"centres_east": wc[0].tolist(), "centres_north": wc[1].tolist(),
                    "indices": [[[a.tolist() for a in t] for t in row] for row in idx], "direct_indexing_works": works,
                    "second_call_identical_and_arguments_unchanged": bool(stable)}
@@ -114,6 +124,9 @@ def rolling_case(vd, spec, size, spacing, shape, region, adj, kind):
     except ValueError:
         obs = "ValueError"
         cobs = "None"
+    except Exception as exc:   # any other exception on these inputs is a failure of the implementation
+        obs = {"unexpected_exception": repr(exc)}
+        bad = "malformed"
     cshape = "None" if shape is None else "(Some (%s, %s))" % (cZ(shape[0]), cZ(shape[1]))
     creg = "None" if region is None else "(Some %s)" % dl(region)
     if bad in ("malformed", "unstable"):
@@ -124,14 +137,19 @@ def rolling_case(vd, spec, size, spacing, shape, region, adj, kind):
             dl(layouts.logical(east)), dl(layouts.logical(north)), clist([cN(d) for d in east.shape]), cD(size), cspacing(spacing), cshape, creg, cZ(adj), cobs)
         if bad == "indexing":
             term = "(match %s with Vok | Vskip => Vboth | v => v end)" % term
-    repro = layouts.repro_args(spec) + "import verde; print(verde.rolling_window(c, **%r))" % (kw,)
+    repro = layouts.repro_args(spec) + (layouts.repro_sequence(*pre) if pre else "") + "import verde; print(verde.rolling_window(c, **%r))" % (kw,)
     inp = {"fn": "rolling_window", "coordinates": layouts.describe(spec), "size": size, "spacing": spacing, "shape": shape,
            "region": None if region is None else [float(r) for r in region], "adjust": ADJ[adj]}
+    if pre:
+        inp["after"] = {"earlier_call_on_same_objects": [pre[0][0], repr(pre[0][1])], "then_in_place": [list(o) for o in pre[1]]}
     return Case(inp, obs, term, repro, kind, nontrivial=(obs != "ValueError" and east.size > 0))
 
 
-def expanding_case(vd, spec, center, sizes, kind):
+def expanding_case(vd, spec, center, sizes, kind, pre=None):
     coords = layouts.build(spec)
+    if pre:
+        layouts.first_call(vd, coords, pre[0])
+        layouts.apply_ops(coords, pre[1])
     snap = layouts.snapshot(coords)
     east, north = coords[0], coords[1]
     bad = None
@@ -142,6 +160,8 @@ def expanding_case(vd, spec, center, sizes, kind):
             works = len(out) == len(sizes) and all(indexing_works(coords, t, center[0], center[1], s / 2) for t, s in zip(out, sizes))
             out2 = vd.expanding_window(coords, center=center, sizes=sizes)
             stable = layouts.unchanged(coords, snap) and same_tuples(out, out2)
+            if pre:
+                stable = stable and same_tuples(out, vd.expanding_window(layouts.fresh(coords), center=center, sizes=sizes))
             obs = {"indices": [[a.tolist() for a in t] for t in out], "direct_indexing_works": works,
                    "second_call_identical_and_arguments_unchanged": bool(stable)}
             cobs = "(Some %s)" % clist([ctuple(t) for t in out])
@@ -155,6 +175,9 @@ def expanding_case(vd, spec, center, sizes, kind):
     except ValueError:
         obs = "ValueError"
         cobs = "None"
+    except Exception as exc:
+        obs = {"unexpected_exception": repr(exc)}
+        bad = "malformed"
     if bad in ("malformed", "unstable"):
         term = "Vboth"
     else:
@@ -162,8 +185,10 @@ def expanding_case(vd, spec, center, sizes, kind):
             dl(layouts.logical(east)), dl(layouts.logical(north)), clist([cN(d) for d in east.shape]), cD(center[0]), cD(center[1]), dl(sizes), cobs)
         if bad == "indexing":
             term = "(match %s with Vok | Vskip => Vboth | v => v end)" % term
-    repro = layouts.repro_args(spec) + "import verde; print(verde.expanding_window(c, center=%r, sizes=%r))" % (tuple(center), list(sizes))
+    repro = layouts.repro_args(spec) + (layouts.repro_sequence(*pre) if pre else "") + "import verde; print(verde.expanding_window(c, center=%r, sizes=%r))" % (tuple(center), list(sizes))
     inp = {"fn": "expanding_window", "coordinates": layouts.describe(spec), "center": list(center), "sizes": list(sizes)}
+    if pre:
+        inp["after"] = {"earlier_call_on_same_objects": [pre[0][0], repr(pre[0][1])], "then_in_place": [list(o) for o in pre[1]]}
     return Case(inp, obs, term, repro, kind, nontrivial=(obs != "ValueError" and east.size > 0 and len(sizes) > 0))
 
 
@@ -239,6 +264,18 @@ def random_rolling(rnd, uni):
 
 def generate(tier, seed):
     import verde as vd
+    return _generate(tier, seed, vd)
+
+
+def _guard(fn):
+    def wrapped(vd, spec, *a, **k):
+        kind = a[-1] if not k.get("kind") else k["kind"]
+        inp = {"fn": fn.__name__, "coordinates": layouts.describe(spec), "arguments": repr(a[:-1]), "after": repr(k.get("pre"))}
+        return core.guarded(lambda: fn(vd, spec, *a, **k), inp, kind)
+    return wrapped
+
+
+def _generate(tier, seed, vd):
     rnd = random.Random(seed)
     cases = []
     nroll = 60 if tier == "quick" else 700
@@ -337,6 +374,47 @@ def generate(tier, seed):
             center = (be + rnd.randint(0, we * 4) / 4, bn + rnd.randint(0, hn * 4) / 4)
             sizes = [rnd.choice([0.0, 0.5, 1.0, 1.5, 2.0, 3.0, 5.0, 9.0]) for _ in range(rnd.randint(1, 4))]
             cases.append(expanding_case(vd, layouts.arrange(rnd, arrs[:keep], dt=dts[:keep]), center, sizes, "mixed-dtype"))
+    # shape= on clearly non-square regions (also non-square after shrinking), n_north != n_east, windows equal to a side
+    gx, gy = np.meshgrid(np.arange(0.0, 21.0, 2.5), np.arange(0.0, 11.0, 2.5))
+    for reg, size, shp in [((0.0, 20.0, 0.0, 10.0), 4.0, (3, 5)), ((0.0, 20.0, 0.0, 10.0), 4.0, (5, 3)), ((0.0, 20.0, 0.0, 10.0), 10.0, (2, 4)),
+                           ((0.0, 20.0, 0.0, 10.0), 10.0, (3, 2)), ((0.0, 20.0, 0.0, 10.0), 2.5, (2, 6)), ((0.0, 10.0, 0.0, 20.0), 4.0, (4, 2)),
+                           ((2.5, 17.5, 0.0, 10.0), 5.0, (2, 3)), (None, 4.0, (3, 5)), (None, 10.0, (2, 3)), ((0.0, 20.0, 0.0, 10.0), 6.0, (2, 7))]:
+        e, n = (gy, gx) if reg == (0.0, 10.0, 0.0, 20.0) else (gx, gy)
+        cases.append(rolling_case(vd, layouts.from_arrays((e, n)), size, None, shp, reg, 0, "shape-nonsquare"))
+    for i in range(nroll // 3):
+        w, s0 = rnd.randint(-8, 8) / 4, rnd.randint(-8, 8) / 4
+        width, height = rnd.choice([(8.0, 3.0), (3.0, 9.0), (12.0, 4.0), (2.5, 7.5), (10.0, 5.0)])
+        reg = (w, w + width, s0, s0 + height)
+        size = rnd.choice([0.5, 1.0, 2.0, min(width, height), min(width, height)])
+        shp = rnd.choice([(2, 3), (3, 2), (2, 5), (5, 2), (3, 4), (4, 3), (2, 6), (6, 2)])
+        m = rnd.choice([6, 8, 10, 12, 15, 18])
+        xs = [w + rnd.randint(0, int(width * 4)) / 4 for _ in range(m - 2)] + [reg[0], reg[1]]
+        ys = [s0 + rnd.randint(0, int(height * 4)) / 4 for _ in range(m - 2)] + [reg[2], reg[3]]
+        cases.append(rolling_case(vd, layouts.arrange(rnd, [xs, ys]), size, None, shp, reg if rnd.random() < 0.6 else None, 0, "shape-nonsquare"))
+    # sequences: a call, the SAME coordinate array objects modified in place, the call under test (must match the
+    # model on the new values and a call on fresh copies)
+    for i in range(nroll // 2):
+        m = rnd.choice([6, 8, 10, 12, 15, 18])
+        ints = rnd.random() < 0.3
+        if ints:
+            xs = [rnd.randint(-4, 4) for _ in range(m - 2)] + [-4, 4]
+            ys = [rnd.randint(-3, 3) for _ in range(m - 2)] + [-3, 3]
+        else:
+            xs = [rnd.randint(-16, 16) / 4 for _ in range(m - 2)] + [-4.0, 4.0]
+            ys = [rnd.randint(-12, 12) / 4 for _ in range(m - 2)] + [-3.0, 3.0]
+        spec = layouts.arrange(rnd, [xs, ys], dt=rnd.choice(["int64", "int32"]) if ints else "float64")
+        ops = layouts.sequence_ops(rnd, spec)
+        rkw = {"size": rnd.choice([1.0, 1.5, 2.0]), "spacing": rnd.choice([1.0, 1.5, 2.5])}
+        ekw = {"center": (rnd.randint(-8, 8) / 4, rnd.randint(-8, 8) / 4), "sizes": [rnd.choice([0.5, 1.0, 2.0, 3.0, 5.0]) for _ in range(rnd.randint(1, 3))]}
+        first = ("rolling_window", rkw) if rnd.random() < 0.5 else ("expanding_window", ekw)
+        if i % 2 == 0:
+            size = rnd.choice([1.0, 1.5, 2.0])
+            sp, sh = (rnd.choice([1.0, 1.5, 2.5, (2.0, 3.0)]), None) if rnd.random() < 0.6 else (None, rnd.choice([(2, 3), (3, 2)]))
+            cases.append(rolling_case(vd, spec, size, sp, sh, None, 0, "sequence-in-place", pre=(first, ops)))
+        else:
+            center = (rnd.randint(-8, 8) / 4, rnd.randint(-8, 8) / 4)
+            sizes = [rnd.choice([0.5, 1.0, 2.0, 3.0, 5.0, 9.0]) for _ in range(rnd.randint(1, 3))]
+            cases.append(expanding_case(vd, spec, center, sizes, "sequence-in-place", pre=(first, ops)))
     # expanding windows
     nexp = 60 if tier == "quick" else 700
     for i in range(nexp):
@@ -371,3 +449,7 @@ def generate(tier, seed):
 
 def search(dis, tier, seed):
     return generate("quick", seed + 1)
+
+
+rolling_case = _guard(rolling_case)
+expanding_case = _guard(expanding_case)
